@@ -73,8 +73,20 @@ func (P *Program) checkFrame(fn *ssa.Function, depth int) []string {
 			}
 			// a callee that writes only into one argument object is harmless when that object was
 			// allocated by the function under check
-			if ct.ModObject != "" && len(ct.ModKinds) == 0 && ct.ModYounger == "" && strings.HasPrefix(ct.ModObject, "arg") {
-				if k, err := strconv.Atoi(ct.ModObject[3:]); err == nil && k < len(c.Args) && local(c.Args[k]) {
+			if len(ct.Mods) > 0 {
+				ok := true
+				for _, m := range ct.Mods {
+					if m.Object == "" || !strings.HasPrefix(m.Object, "arg") {
+						ok = false
+						break
+					}
+					k, err := strconv.Atoi(m.Object[3:])
+					if err != nil || k >= len(c.Args) || !local(c.Args[k]) {
+						ok = false
+						break
+					}
+				}
+				if ok {
 					return
 				}
 			}
